@@ -540,6 +540,10 @@ def run_case(case, full_every_step=True):
 # ---------------------------------------------------------------------------
 
 
+# coverage-guided stage (atheris drives these Hypothesis shards, see vf/run.py): {tier: {shard kind: (shards, executions)}}
+CG = {'thorough': {'hyp': (6, 10000)}}
+
+
 def plan(tier, seed, scale=1.0):
     b = BOUNDS[tier]
     specs = []
